@@ -19,7 +19,9 @@ RULE = ("complete enumeration of call shapes: {@symbolic_function plain function
         "keyword, concrete positional, concrete keyword, omitted} (positional before keyword), each evaluated over "
         "random 2-3 element domains; random repetitions with other worlds in the thorough tier.  Non-trivial = the call "
         "has at least one variable argument; distinct = the call shape")
-ASSUMPTIONS = ["distinct variables are used for distinct parameters (the same variable in two parameters is C01's "
+ASSUMPTIONS = ["all generated functions / methods / predicate classes share one qualified name per kind (re-definitions "
+               "with other signatures), so state keyed by name instead of by object is exposed",
+               "distinct variables are used for distinct parameters (the same variable in two parameters is C01's "
                "predicate-same-var-twice finding)", "the predicate is the only condition of the query, so every "
                "candidate binding must reach the body exactly once"]
 ANCHORS = ["merge_args_and_kwargs", "symbolic_function", "Predicate.__new__",
@@ -50,8 +52,13 @@ def setup(ctx):
     D = [m.P(a=5, name="D0"), m.P(a=6, name="D1"), m.P(a=8, name="D2")]
     ctx["defaults"] = D
     made = {}
-    ns = {"LOG": LOG, "_truth": _truth, "D": D, "symbolic_function": symbolic_function, "Predicate": Predicate,
-          "dataclass": dataclass, "field": field}
+    import sys
+    import types
+    dyn = types.ModuleType("c12_dynamic")
+    sys.modules["c12_dynamic"] = dyn
+    ns = dyn.__dict__
+    ns.update({"LOG": LOG, "_truth": _truth, "D": D, "symbolic_function": symbolic_function, "Predicate": Predicate,
+               "dataclass": dataclass, "field": field})
     for arity in (1, 2, 3):
         for nd in range(0, arity + 1):
             params = []
@@ -61,18 +68,18 @@ def setup(ctx):
             tup = "(" + names + ("," if arity == 1 else "") + ")"
             src = f"""
 @symbolic_function
-def fn_{arity}_{nd}({', '.join(params)}):
+def probe({', '.join(params)}):
     LOG.append({tup})
     return _truth({tup})
 
-class H_{arity}_{nd}:
+class Host:
     @symbolic_function
     def meth(self, {', '.join(params)}):
         LOG.append({tup})
         return _truth({tup})
 
 @dataclass(eq=False)
-class Pred_{arity}_{nd}(Predicate):
+class ProbePred(Predicate):
 """ + "\n".join(f"    p{i}: object" + (f" = field(default_factory=lambda: D[{i}])" if i >= arity - nd else "")
                  for i in range(arity)) + f"""
 
@@ -81,9 +88,10 @@ class Pred_{arity}_{nd}(Predicate):
         return _truth(({', '.join('self.p%d' % i for i in range(arity))}{',' if arity == 1 else ''}))
 """
             exec(src, ns)
-            made[("fn", arity, nd)] = ns[f"fn_{arity}_{nd}"]
-            made[("method", arity, nd)] = ns[f"H_{arity}_{nd}"]()
-            made[("pred", arity, nd)] = ns[f"Pred_{arity}_{nd}"]
+            # the same (module, qualified name) for every signature: re-definitions must not be confused
+            made[("fn", arity, nd)] = ns["probe"]
+            made[("method", arity, nd)] = ns["Host"]()
+            made[("pred", arity, nd)] = ns["ProbePred"]
     ctx["made"] = made
 
 
